@@ -34,7 +34,7 @@ type witness struct {
 	Log   *runLog `json:"log"`
 }
 
-var hookNames = []string{"gw.shiftMatching.afterPredicate", "gw.patchExpired.afterPredicate", "swamp.patchExpired.afterSelect", "swamp.shift.afterSelect"}
+var hookNames = []string{"gw.shiftMatching.afterPredicate", "gw.patchExpired.afterPredicate", "swamp.patchExpired.afterSelect", "swamp.shift.afterSelect", "swamp.delete.underGuard", "swamp.save.underGuard"}
 
 func nontrivial(s *sched, lg *runLog) bool {
 	// at least two claimers overlapped and at least one record was handed out, or a forced
@@ -99,7 +99,7 @@ func runOne(c *rig.Check, t *testing.T, s sched, verbose bool) (sigs []string) {
 		}
 		if f := s.Ops[i].Force; f != "" {
 			forced = true
-			if (f == "pred" && ev.HookPred) || (f == "sel" && ev.HookSel) {
+			if (f == "pred" && ev.HookPred) || (f == "sel" && ev.HookSel) || (f == "guard" && ev.GuardAt != 0) {
 				forcedHit = true
 			}
 			if f == "sel" && s.Ops[i].Kind == "pex" && ev.HookPred && len(ev.Claims) == 0 {
@@ -117,7 +117,7 @@ func runOne(c *rig.Check, t *testing.T, s sched, verbose bool) (sigs []string) {
 			// window to force; the rest of the case ran and was checked as a stress case
 			c.Count("forced_cases_nothing_selected", 1)
 		case len(findings) == 0:
-			c.Inconclusive("the delayed claimer never reached its hook (hooks not compiled in?)")
+			c.Inconclusive("the delayed request never reached its hook (hooks.diff / hooks2.diff not compiled in?)")
 		}
 	}
 	for _, n := range hookNames {
